@@ -78,7 +78,7 @@ PAR_NOTES = {
     "let mut stream = Stream :: new ( src . sample_rate ( ) , src . channels ( ) , src . bits_per_sample ( ) ) ? ;":
         "may return before any thread or channel exists",
     "stream . stream_info_mut ( ) . set_block_sizes ( block_size , block_size ) ? ;":
-        "STREAMINFO block sizes; the first call may return before any thread exists, the second repeats a check that passed",
+        "STREAMINFO block sizes BEFORE the threads exist (may return early); the call after the joins is `Act.setBlockSizes`",
     "let worker_count = determine_worker_count ( & config ) ? ;": "DEFINES the worker count `Count.workers` (hand model: determineWorkerCount)",
     "let parbuf = Arc :: clone ( & parbuf ) ;": "Arc clone for a worker",
     "let parsink = Arc :: clone ( & parsink ) ;": "Arc clone for a worker",
@@ -87,8 +87,6 @@ PAR_NOTES = {
     "let config = Arc :: clone ( & config ) ;": "Arc clone for a worker",
     "let src_len_hint = src . len_hint ( ) ;": "length hint of the source",
     "let mut first_encode_error = None ;": "initial value of the first error (set by the drain)",
-    "stream . stream_info_mut ( ) . set_total_samples ( src_len_hint . unwrap_or_else ( || context . total_samples ( ) ) ) ;":
-        "STREAMINFO total samples",
     "frame . precompute_bitstream ( ) ;": "serialises the frame inside the worker (C08_precompute)",
     # ParFrameBuf::new
     "let mut buffers = Vec :: with_capacity ( replicas ) ;": "empty buffer vector",
@@ -816,6 +814,11 @@ class Tx:
         e = st["e"]
         if not st["semi"] and last:
             return self.tx_expr(e, ctx, binder, tail=True)
+        if getattr(ctx, "after_feed", False) and ctx.fn == "encode_with_fixed_block_size":
+            if text == "stream . stream_info_mut ( ) . set_block_sizes ( block_size , block_size ) ? ;":
+                return [("act", ".setBlockSizes")], None
+            if text == "stream . stream_info_mut ( ) . set_total_samples ( src_len_hint . unwrap_or_else ( || context . total_samples ( ) ) ) ;":
+                return [("act", ".setTotalSamples")], None
         if text in PAR_NOTES:
             return [self.note(text, ctx)], None
         s, v = self.tx_expr(e, ctx, None)
@@ -1361,6 +1364,7 @@ def emit_par(tmod, cinfo=None):
     for i, st in enumerate(body["stmts"]):
         if not seen_feed and "feed_fixed_block_size" in toks[st["lo"]:st["hi"]]:
             seen_feed = True
+            ctx.after_feed = True
         s, _ = tx.tx_stmt(st, ctx, None, i == n - 1)
         (prog if seen_feed else setup).extend(s)
     if not seen_feed:
